@@ -34,6 +34,8 @@ func runC05(c *an.Ctx) {
 	if executeBlock == nil || handleTx == nil || reset == nil || commit == nil || invokeH == nil || deployH == nil || costInvalid == nil || charge == nil {
 		return
 	}
+	// the units with rules of their own below are single steps for their callers
+	an.SetOpaqueUnits(handleTx, invokeH, deployH, costInvalid, charge)
 	// (1)
 	{
 		hts := an.CallsTo(executeBlock, funcObj(handleTx))
@@ -158,17 +160,9 @@ func runC05(c *an.Ctx) {
 			c.Undecide("anchor|"+h.Name()+".overlay", "anchors must resolve", c.P.Rel(h.Pos()), "no parameter named overlay")
 			continue
 		}
-		bad := ""
-		for _, ref := range *ov.Referrers() {
-			k, ok := ref.(ssa.CallInstruction)
-			if ok && (isCallTo(k, setErr) || isCallTo(k, funcObj(costInvalid))) {
-				continue
-			}
-			if _, isDbg := ref.(*ssa.DebugRef); isDbg {
-				continue
-			}
-			bad = fmt.Sprintf("%s at %s", ref.String(), c.P.Rel(ref.Pos()))
-		}
+		bad := paramUsedOnlyBy(c, h, ov, func(k ssa.CallInstruction) bool {
+			return isCallTo(k, setErr) || isCallTo(k, funcObj(costInvalid))
+		}, 0)
 		c.Check(bad == "", "confine|"+h.Name()+"|overlay-param", "the handler touches the block overlay only to record an internal error or to charge the failure fee", c.P.Rel(h.Pos()), "other use of overlay: "+bad)
 	}
 	for _, m := range []string{"Put", "Delete"} {
@@ -304,9 +298,10 @@ func runC05(c *an.Ctx) {
 		"(*" + ls + ".StateStore).HandleDeployTransaction": true, "(*" + ls + ".StateStore).HandleInvokeTransaction": true,
 		ls + ".costInvalidGas": true, "(*" + sp + ".StateDB).Commit": true,
 	}
-	for _, e := range cg.Callers(commit) {
-		n := an.FuncName(e.Caller.Func)
-		c.Check(allowed[n], "confine|CacheDB.Commit|"+n, "CacheDB.Commit is called only by the transaction handlers, costInvalidGas and StateDB.Commit", c.P.Rel(e.Site.Pos()), "unexpected caller")
+	commitCallers := entryCallers(c, cg, commit, func(g *ssa.Function) bool { return allowed[an.FuncName(g)] })
+	for _, g := range sortedFns(commitCallers) {
+		n := an.FuncName(g)
+		c.Check(allowed[n], "confine|CacheDB.Commit|"+n, "CacheDB.Commit is called only by the transaction handlers, costInvalidGas and StateDB.Commit (or their private helpers)", c.P.Rel(commitCallers[g].Pos()), "unexpected caller")
 	}
 	if stateCommit != nil {
 		for _, e := range cg.Callers(stateCommit) {
@@ -320,6 +315,49 @@ func runC05(c *an.Ctx) {
 			c.Check(n == "smartcontract/service/evm.applyTransaction", "confine|StateDB.Commit|"+n, "StateDB.Commit (which publishes the transaction cache) is called only by the top-level EIP-155 transaction processor", c.P.Rel(e.Site.Pos()), "unexpected caller")
 		}
 	}
+}
+
+// paramUsedOnlyBy: every use of the parameter is a call selected by allowed, or hands the parameter on to a private
+// helper of the same package (entered by queries on root) whose own uses of it satisfy the same rule. Returns a
+// description of the first other use, "" if there is none.
+func paramUsedOnlyBy(c *an.Ctx, root *ssa.Function, p *ssa.Parameter, allowed func(ssa.CallInstruction) bool, depth int) string {
+	if p.Referrers() == nil {
+		return ""
+	}
+	for _, ref := range *p.Referrers() {
+		if _, isDbg := ref.(*ssa.DebugRef); isDbg {
+			continue
+		}
+		k, ok := ref.(ssa.CallInstruction)
+		if ok && allowed(k) {
+			continue
+		}
+		if call, isCall := ref.(*ssa.Call); isCall && depth < an.MaxInlineDepth {
+			callee := call.Call.StaticCallee()
+			entered := false
+			for _, g := range an.InlineReach(root) {
+				if g == callee && g != root {
+					entered = true
+				}
+			}
+			if entered {
+				bad := ""
+				for i, a := range call.Call.Args {
+					if a == ssa.Value(p) && i < len(callee.Params) {
+						if w := paramUsedOnlyBy(c, root, callee.Params[i], allowed, depth+1); w != "" {
+							bad = w
+						}
+					}
+				}
+				if bad == "" {
+					continue
+				}
+				return bad
+			}
+		}
+		return fmt.Sprintf("%s at %s", ref.String(), c.P.Rel(ref.Pos()))
+	}
+	return ""
 }
 
 func instrs(cs []ssa.CallInstruction) []ssa.Instruction {
